@@ -63,7 +63,7 @@ DROPPED = {("C09", 2): "notes skipped for hunks whose AUTHOR date is before 2025
 
 def load_confirm():
     conf, combos = {}, []
-    for d in ("/tmp/confirm", "/tmp/confirm/first"):
+    for d in ("/tmp/confirm", "/tmp/confirm/first", "/tmp/confirm/second", "/tmp/confirm/third"):
         if not os.path.isdir(d):
             continue
         for fn in sorted(os.listdir(d)):
